@@ -1268,7 +1268,7 @@ fn family_of_api_nlri(t: &Term) -> Option<(i32, i32)> {
 
 /// One path through `GoBgpService::add_path` (=> `local_path`, `TableManager::insert_route`) and back through
 /// `GoBgpService::list_path` (=> `collect_paths`, `destination_to_api`) on a fresh daemon state.
-fn run_grpc(nlri_t: &Term, attrs_t: &[Term]) -> Option<String> {
+fn run_grpc(nlri_t: &Term, attrs_t: &[Term], vrps: &[(u32, u8, u8, u32)]) -> Option<String> {
     let nlri = api_nlri_from_term(nlri_t)?;
     let pattrs: Option<Vec<api::Attribute>> = attrs_t.iter().map(api_attr_from_term).collect();
     let pattrs = pattrs?;
@@ -1284,6 +1284,17 @@ fn run_grpc(nlri_t: &Term, attrs_t: &[Term]) -> Option<String> {
             g.router_id = Ipv4Addr::new(192, 0, 2, 254);
             let global: GlobalHandle = Arc::new(tokio::sync::RwLock::new(g));
             let tables = Arc::new(TableManager::new(1));
+            {
+                // VRPs as an RTR session would install them
+                let src = Arc::new(IpAddr::V4(Ipv4Addr::new(192, 0, 2, 200)));
+                let mut rpki = tables.rpki.write().unwrap();
+                for (addr, len, maxlen, asn) in vrps.iter().copied() {
+                    rpki.insert(
+                        packet::IpNet::V4(bgp::Ipv4Net { addr: Ipv4Addr::from(addr), mask: len }),
+                        Arc::new(table::Roa::new(maxlen, asn, src.clone())),
+                    );
+                }
+            }
             let svc = GrpcService::new(Arc::new(tokio::sync::Notify::new()), active_tx, global, tables);
             let fam = api::Family { afi, safi };
             let path = api::Path { nlri: Some(nlri), family: Some(fam.clone()), pattrs, ..Default::default() };
@@ -1325,9 +1336,25 @@ fn run_grpc(nlri_t: &Term, attrs_t: &[Term]) -> Option<String> {
                 Some(n) => api_nlri_t(n),
                 None => Term::atom("n-missing"),
             };
+            let val = match &p.validation {
+                None => "none",
+                Some(v) => match (
+                    api::ValidationState::try_from(v.state).ok(),
+                    api::validation::Reason::try_from(v.reason).ok(),
+                ) {
+                    (Some(api::ValidationState::NotFound), _) => "not-found",
+                    (Some(api::ValidationState::Valid), _) => "valid",
+                    (Some(api::ValidationState::Invalid), Some(api::validation::Reason::Asn)) => "invalid-asn",
+                    (Some(api::ValidationState::Invalid), Some(api::validation::Reason::Length)) => "invalid-length",
+                    _ => "unexpected",
+                },
+            };
             Term::tag(
                 "grpc",
-                vec![Term::tag("listed", vec![n, Term::list(p.pattrs.iter().map(api_attr_t).collect())])],
+                vec![
+                    Term::tag("listed", vec![n, Term::list(p.pattrs.iter().map(api_attr_t).collect())]),
+                    Term::tag("validation", vec![Term::atom(val)]),
+                ],
             )
             .to_string()
         })
@@ -1433,17 +1460,35 @@ fn run_case(line: &str) -> String {
             }
         }
         "grpc" => {
-            if l.len() != 3 {
+            if l.len() != 3 && l.len() != 4 {
                 return BAD_CASE.into();
             }
             let Some(attrs) = l[2].as_list() else { return BAD_CASE.into() };
+            let mut vrps = Vec::new();
+            if l.len() == 4 {
+                let Some(vs) = l[3].tagged("vrps") else { return BAD_CASE.into() };
+                for v in vs {
+                    let Some(f) = v.as_list() else { return BAD_CASE.into() };
+                    if f.len() != 4 {
+                        return BAD_CASE.into();
+                    }
+                    let (Some(a), Some(len), Some(ml), Some(asn)) = (as_u32(&f[0]), as_u32(&f[1]), as_u32(&f[2]), as_u32(&f[3]))
+                    else {
+                        return BAD_CASE.into();
+                    };
+                    if len > 32 || ml > 255 {
+                        return BAD_CASE.into();
+                    }
+                    vrps.push((a, len as u8, ml as u8, asn));
+                }
+            }
             // a raw PREFIX_SID would be stored and listed through the (unmodelled) prefix-SID codec
             if attrs.iter().any(|a| {
                 a.tagged("unknown").and_then(|x| x.get(1)).and_then(as_u128).is_some_and(|t| t % 256 == 40)
             }) {
                 return BAD_CASE.into();
             }
-            run_grpc(&l[1], attrs).unwrap_or_else(|| BAD_CASE.into())
+            run_grpc(&l[1], attrs, &vrps).unwrap_or_else(|| BAD_CASE.into())
         }
         "x" => {
             // (x attr-<name> CODE FLAGS xBYTES) | (x nlri-<name> AFI SAFI xBYTES) | (x api-<kind> (N..) (ASTR..) xBYTES)
